@@ -1,6 +1,6 @@
 #!/bin/bash
 # tools/run_all.sh [tier] : run every check on the current tree (rewrites evidence/*.json), print one line each
-cd /verif || exit 2
+cd "$(dirname "$0")/.." || exit 2
 if ! git -C /repo diff --quiet; then echo "/repo has uncommitted changes" >&2; exit 2; fi
 TIER=${1:-quick}
 for id in C01 C02 C03 C04 C05 C06 C07 C08 C09 C10 C11 C12 C13 C14 C15 C16 C17 C18 C19 C20; do
